@@ -8,6 +8,7 @@ require (
 	seehuhn.de/go/geom v0.7.5-0.20260817173237-f200797cc36c
 	seehuhn.de/go/membudget v0.7.4
 	seehuhn.de/go/pdf v0.0.0
+	seehuhn.de/go/postscript v0.7.5-0.20260806200436-89e22957abb9
 	seehuhn.de/go/xmp v0.7.4
 )
 
@@ -16,7 +17,6 @@ require (
 	golang.org/x/image v0.44.0 // indirect
 	seehuhn.de/go/dag v1.0.0 // indirect
 	seehuhn.de/go/icc v0.7.5-0.20260816204135-054437223970 // indirect
-	seehuhn.de/go/postscript v0.7.5-0.20260806200436-89e22957abb9 // indirect
 	seehuhn.de/go/sfnt v0.7.5-0.20260806215210-8fa8e1886588 // indirect
 )
 
